@@ -3,7 +3,8 @@
 usage: eval_refactor.py <Cxx>   (reads /tmp/out3_Cxx/mutation3.diff, notes3.md; uses worktree /tmp/wt3_Cxx)"""
 import json, os, re, subprocess, sys, shutil
 pid = sys.argv[1]
-out, wt = f"/tmp/out3_{pid}", f"/tmp/wt3_{pid}"
+rnd = sys.argv[2] if len(sys.argv) > 2 else "3"
+out, wt = f"/tmp/out{rnd}_{pid}", f"/tmp/wt{rnd}_{pid}"
 env = dict(os.environ, GOFLAGS="-mod=mod", GOPROXY="off", GOSUMDB="off", GOTOOLCHAIN="local")
 def sh(cmd, cwd=None):
     p = subprocess.run(cmd, shell=True, cwd=cwd, env=env, capture_output=True, text=True, errors='replace', timeout=1800)
@@ -24,14 +25,11 @@ for l in o.split("\n"):
 missing = [t for t in base['stable_pass'] if res.get(t) != 'pass']
 meta["suite_stable_passing"] = f"{len(base['stable_pass'])-len(missing)}/{len(base['stable_pass'])}"
 rc, o = sh("git diff --stat | tail -1", wt); meta["size"] = o.strip()
-sh("git checkout -- . && git clean -fdq", wt)
-import fcntl
-_lk = open("/tmp/repo.lock", "w"); fcntl.flock(_lk, fcntl.LOCK_EX)   # /repo is shared: one evaluation at a time
-assert sh("git status --porcelain", "/repo")[1].strip() == "", "repo dirty"
-rc, o = sh(f"git apply {patch}", "/repo"); meta["applies_to_repo"] = rc == 0
 alarms = {}
-if rc == 0:
-    p = subprocess.run("./check all quick", shell=True, cwd="/verif", env=dict(env, VERIF_NO_EVIDENCE="1"), capture_output=True, text=True)
+meta["applies_to_repo"] = meta["patch_applies"]
+if meta["patch_applies"] and meta["builds"]:
+    # the checks run on the scratch worktree with the refactor applied (never on /repo)
+    p = subprocess.run("./check all quick", shell=True, cwd="/verif", env=dict(env, VERIF_NO_EVIDENCE="1", VERIF_REPO=wt), capture_output=True, text=True)
     cur = None
     for l in p.stdout.split("\n"):
         m = re.match(r"VIOLATION property=(C\d+)", l)
@@ -39,12 +37,11 @@ if rc == 0:
         m2 = re.match(r"\s+rule=(\S+) construct=(.*) at ", l)
         if m2 and cur:
             alarms.setdefault(cur, [])
-            if len(alarms[cur]) < 4: alarms[cur].append(m2.group(1) + " :: " + m2.group(2)[:200])
+            if len(alarms[cur]) < 6: alarms[cur].append(m2.group(1) + " :: " + m2.group(2)[:200])
     meta["checker_failures"] = [l[:200] for l in p.stdout.split("\n") if l.startswith("CHECKER-FAILURE")][:3]
-sh("git checkout -- . && git clean -fdq", "/repo")
-fcntl.flock(_lk, fcntl.LOCK_UN)
+sh("git checkout -- . && git clean -fdq", wt)
 meta["alarms"] = alarms
-d = f"/verif/seeded/{pid}-r3-refactor"
+d = f"/verif/seeded/{pid}-r{rnd}-refactor"
 os.makedirs(d, exist_ok=True)
 shutil.copy(patch, f"{d}/patch.diff")
 if os.path.exists(f"{out}/notes3.md"): shutil.copy(f"{out}/notes3.md", f"{d}/notes.md")
